@@ -68,11 +68,11 @@ def run(prop, tier, seed):
         for m in sorted(methods):
             fields = {k: sorted(v) for k, v in methods[m]["fields"].items()}
             combos = methods[m]["combos"]
-            if combos <= (300 if tier == "quick" else 20000):
+            if combos <= (300 if tier == "quick" else 3000):
                 rows = [dict(zip(sorted(fields), vals)) for vals in itertools.product(*[fields[k] for k in sorted(fields)])]
                 mode, pairs = "full", methods[m]["npairs"]
             else:
-                rows, pairs = pairwise(fields, rnd, extra=20 if tier == "quick" else 600)
+                rows, pairs = pairwise(fields, rnd, extra=20 if tier == "quick" else 400)
                 mode = "pairwise"
             # batches of 300 requests are expensive: keep a handful per method
             if tier == "quick":
@@ -80,7 +80,7 @@ def run(prop, tier, seed):
                 rows = [x for x in rows if x.get("count") != "300"] + big[:6]
             stats[m] = dict(messages=len(rows), mode=mode, combos=combos, pairs=pairs)
             for row in rows:
-                for fill in range(1 if tier == "quick" else 3):
+                for fill in range(1 if tier == "quick" else 2):
                     n += 1
                     msgs.append(dict(id="m%d" % n, method=m, shape=row, seed=seed * 1000003 + n))
         rnd.shuffle(msgs)
